@@ -93,13 +93,14 @@ def main():
             "level_note": note,
             "technique": tech,
         })
-    hooks = ["c59604a verif hook: let a harness decide when the BDAT delivery goroutine starts (hooks_verif.go, hooks_noverif.go, one call in conn.go)"]
+    hooks = ["c59604a verif hook: let a harness decide when the BDAT delivery goroutine starts (hooks_verif.go, hooks_noverif.go, one call in conn.go)",
+             "bac45df verif hook: let a harness hold a freshly accepted connection before it is registered (hooks_verif.go, hooks_noverif.go, one call in server.go)"]
     m = {
         "version": 1,
         "setup_cmd": "./check --build",
         "hooks": {
             "guard": "verif",
-            "enable": "go test -tags verif (passed by ./check to every build): enables smtp.SetVerifBdatStartHook, through which the harness parks the BDAT delivery goroutine on a gate before it calls the backend; every other oracle observes public API, the wire, Server.ErrorLog, runtime.Stack and the race detector",
+            "enable": "go test -tags verif (passed by ./check to every build): enables smtp.SetVerifBdatStartHook and smtp.SetVerifConnAcceptedHook, through which the harness parks the BDAT delivery goroutine on a gate before it calls the backend, and the goroutine of a freshly accepted connection before the connection is registered with the server; every other oracle observes public API, the wire, Server.ErrorLog, runtime.Stack and the race detector",
             "baseline_off_cmd": "cd /repo && go test -vet=off -count=1 ./...",
             "source_commits": hooks,
             "add_only": True,
